@@ -192,6 +192,13 @@ func c08Check(where string, got map[string]any, chain []CfgMap, rootEff map[stri
 }
 
 func (c08) Run(c *Ctx, raw json.RawMessage) Case {
+	// consumer-level scenarios (which level RootApp.Run reads) are full CLI runs
+	var probe struct {
+		Focus string `json:"focus"`
+	}
+	if json.Unmarshal(raw, &probe) == nil && probe.Focus != "" {
+		return pipeline{"C08"}.Run(c, raw)
+	}
 	var t TreeIn
 	if err := json.Unmarshal(raw, &t); err != nil {
 		return Case{Oracle: fail("bad-input", "%v", err)}
